@@ -44,7 +44,6 @@ PARAM_MUTATION_EXCEPTIONS = {
 }
 # class-level tables the package only reads: (module, class, attribute) -> reason
 CLASS_CONSTANTS = {
-    ("mingus.containers.instrument", "MidiInstrument", "names"): "the General MIDI instrument name table: looked up, never assigned or edited",
     ("fixpkg.bad", "Table", "ROWS"): "fixture",
 }
 # module-level mutable state -> functions allowed to write it
